@@ -196,7 +196,7 @@ def check_exact(prop, tier, seed):
     if not out.fault:
         confirm_violations(prop, agg, r_mcb, _exact_predicate(prop),
                            lambda rec, obl: 'mcb_sva_%s/%s' % (rec.get('algo'), rec.get('edges')), out,
-                           wtypes=('double', 'int'))
+                           wtypes=('double', 'int'), harness=h)
     bounds = {
         'functions_encoded': ['parmcb::mcb_sva_signed', 'parmcb::mcb_sva_fvs_trees', 'parmcb::mcb_sva_iso_trees',
                               '(and everything they instantiate: ForestIndex, SpVecGF2, bidirectional_signed_dijkstra, SPTree, '
@@ -408,7 +408,7 @@ def check_approx(prop, tier, seed):
                     return o.get('crashed') or o['exception'] == '' or o['N'] != 0
                 return approx_bound_violated(o, k)
             confirm_violations(prop, agg, r_mcb, pred,
-                               lambda rec, obl: '%s/k=%s/%s' % (rec.get('algo'), rec.get('k'), rec.get('edges')), out)
+                               lambda rec, obl: '%s/k=%s/%s' % (rec.get('algo'), rec.get('k'), rec.get('edges')), out, harness=h)
     bounds = {
         'functions_encoded': ['parmcb::approx_mcb_sva_signed', 'parmcb::approx_mcb_sva_fvs_trees', 'parmcb::approx_mcb_sva_iso_trees',
                               'parmcb::detail::BaseApproxSpannerAlgorithm (construct_spanner, run)', 'parmcb::is_bfs_reachable',
@@ -608,7 +608,7 @@ def C14(tier, seed):
     fq = [('K33', 2), ('Q3', 2), ('grid3x3', 2), ('K5', 2), ('two_triangles_bridge', 3), ('tri_plus_tri', 3), ('K33', 0), ('grid3x3', 0)]
     ft = fq + [('K33', 3), ('Q3', 3), ('grid3x3', 3), ('K5', 3), ('petersen', 2), ('petersen', 0), ('Q3', 0), ('K6', 2), ('wheel5', 3),
                ('prism', 3), ('grid3x4', 2), ('theta2_2_3', 4)]
-    cases = topo_cases(tier, seed, full_max_quick=4, full_max_thorough=5, fams_quick=fq, fams_thorough=ft, g5_max=5)
+    cases = topo_cases(tier, seed, full_max_quick=4, full_max_thorough=5, fams_quick=fq, fams_thorough=ft, g5_max=5, wide=16)
 
     def tv(leaves, rbin):
         lines, meta = [], []
@@ -1495,7 +1495,7 @@ def C03(tier, seed):
         seen_unrepro = []
         saved_violated = list(agg.violated)
         confirm_violations(prop, agg, r_mcb, pred, lambda rec, obl: '%s/%s' % (rec.get('algo'), rec.get('edges')), out)
-        if out.fault and 'did not reproduce' in out.fault and saved_violated:
+        if out.fault and ('did not reproduce' in out.fault or 'reproduced on the real build' in out.fault) and saved_violated:
             # replay under the shim with concrete weights and the recorded schedule choices
             redo = []
             for rec, obl in saved_violated[:10]:
@@ -1569,6 +1569,14 @@ def mpi_cases(tier, seed):
                     layouts = ['same', 'rev', 'sym']
                 for lay in layouts:
                     cases.append('algo=%s P=%d layout=%s n=%d edges=%s sym=%s seed=%d' % (algo, P, lay, n, edges_str(g), s, seed))
+    if tier == 'quick':
+        # more ranks than signed edges / trees: rank counts 4 and 5 on the two densest 4-vertex graphs (the thorough tier has them on every graph)
+        for n, g in graphs:
+            if len(g) >= 5:
+                for algo in algos:
+                    s = ','.join(map(str, sorted(r.sample(range(len(g)), 3 if 'iso' not in algo else 2))))
+                    for P in (4, 5):
+                        cases.append('algo=%s P=%d layout=%s n=%d edges=%s sym=%s seed=%d' % (algo, P, 'same' if P == 4 else 'rev', n, edges_str(g), s, seed))
     # dense graphs: the per-vertex split of mcb_sva_signed_mpi only runs when a support vector has at least n edges (never on 4 vertices)
     for c in dense_slices('signed_mpi', seed, 3 if tier == 'quick' else 8, 1):
         for P in (2, 3):
@@ -1679,7 +1687,18 @@ def C04(tier, seed):
                     break
             if confirmed is None:
                 # 2. the same simulator with concrete weights and the recorded layout choice (stated in the replay file)
-                redo = ['algo=%s P=%s layout=%s n=%s edges=%s sym=none fixed=%s seed=%d' % (rec['algo'], P, rec['layout'], rec['n'], rec['edges'], ','.join(map(str, weights)), seed)]
+                # (the achieved address order depends on the allocation history, which differs between the symbolic and the concrete run: the other
+                # dictated layouts and the path's own model are tried as well)
+                wsets = [weights]
+                try:
+                    w2, _ = instance_weights(rec, rec['model'])
+                    if w2 != weights:
+                        wsets.append(w2)
+                except Exception:
+                    pass
+                lays = [rec['layout']] + [l for l in ('rev', 'same') if l != rec['layout']] + (['sym'] if P <= 3 and rec['layout'] != 'sym' else [])
+                redo = ['algo=%s P=%s layout=%s n=%s edges=%s sym=none fixed=%s seed=%d' % (rec['algo'], P, lay, rec['n'], rec['edges'], ','.join(map(str, ws)), seed)
+                        for ws in wsets for lay in lays]
                 s2, log2 = run_harness(h, redo, prop + '-confirm', timeout=300)
                 a2 = Agg([prop + ':'])
                 a2.add_log(log2)
